@@ -415,18 +415,10 @@ func checkPacketLayouts(prog *core.Program, r2, r5 *core.RuleRun) {
 							need = k
 						}
 					}
-				case *ssa.BinOp:
-					if x.Op == token.LSS {
-						if c, ok := x.X.(*ssa.Call); ok {
-							if bi, ok := c.Common().Value.(*ssa.Builtin); ok && bi.Name() == "len" {
-								if k, ok := ssaConstInt(x.Y); ok {
-									guard = k
-								}
-							}
-						}
-					}
 				}
 			})
+			// the guard is the smallest length the decoder accepts, whatever form its test has
+			guard = minAcceptedLen(fn)
 			if guard >= 0 && need > 0 {
 				r5.Check(guard == need, name+":guard", fn.Pos(), fmt.Sprintf("rejects fewer than %d octets, exactly what its reads need", need),
 					fmt.Sprintf("length guard is %d but the decoder's own reads need %d octets: a sampled header that ends inside this layer is rejected (and with it the whole datagram) although it can be decoded, or read past its end", guard, need))
@@ -476,14 +468,7 @@ func checkPacketLayouts(prog *core.Program, r2, r5 *core.RuleRun) {
 						if callee == nil {
 							continue
 						}
-						g := int64(-1)
-						allInstrs(callee, func(i3 ssa.Instruction) {
-							if b, ok := i3.(*ssa.BinOp); ok && b.Op == token.LSS {
-								if k, ok := ssaConstInt(b.Y); ok {
-									g = k
-								}
-							}
-						})
+						g := minAcceptedLen(callee)
 						r5.Check(adv <= g, fmt.Sprintf("%s:advance-after-%s", name, callee.Name()), st.Pos(), fmt.Sprintf("advances by %d, %s guarantees %d octets", adv, callee.Name(), g),
 							fmt.Sprintf("after %s (which accepts %d octets) the walker advances by %d octets: a header of %d..%d octets panics with slice bounds out of range", callee.Name(), g, adv, g, adv-1))
 					}
